@@ -329,6 +329,43 @@ def r5(ctx, rep, fns):
                 rep.finding(R5, f'C14.R5/{case}', m.loc(LEX, call), 'metacall.call',
                             f'{case}: returns {r!r}, expected {want!r}' + ('' if stored_ok else '; the new item is not stored under its spec key and its ident')
                             + (f' (while it returns {outcomes.get("cached")!r} when cached)' if state != 'cached' and 'cached' in outcomes else ''))
+    # rebuilding from idents through an abstract class, one after the other with one cache: items of different concrete types
+    # that share their coordinates must each come back as themselves
+    VariableC = Cls('Variable')
+
+    class LexTypeSeq:
+        def __contains__(self, c):
+            return c in (PredicateC, ConstantC, VariableC)
+
+        def __call__(self, name):
+            return Obj('LexType', cls={'Predicate': PredicateC, 'Constant': ConstantC, 'Variable': VariableC}[name])
+    ParameterC = Cls('Parameter', abstract=True)
+    for abstract_cls in (LexicalAbcC, ParameterC):
+        cache = {}
+        del built[:]
+        it = Interp(dict(cache=cache, supercall=lambda c, *sp: construct(c, *sp), Predicate=PredicateC, LexType=LexTypeSeq(), LexicalAbc=LexicalAbcC,
+                         abcs=Obj('abcs', isabstract=lambda c: c.abstract),
+                         isinstance=lambda o, t: (isinstance(o, Item) and (t.abstract or o.clsname == t.__name__)) if isinstance(t, Cls) else isinstance(o, t),
+                         issubclass=lambda a, b: b.abstract or a is b, TypeError=TypeError, KeyError=KeyError, ValueError=ValueError, tuple=tuple, int=int, str=str, len=len),
+                    where='lang/lex.py metacall.call')
+        current['call'] = lambda c, *sp, it=it: it.call(call, [c, *sp])
+        outs = []
+        seq = [('Constant', (2, 7)), ('Variable', (2, 7)), ('Constant', (2, 7)), ('Variable', (1, 9)), ('Constant', (1, 9))]
+        for ident in seq:
+            try:
+                r = it.call(call, [abstract_cls, ident])
+                outs.append(getattr(r, 'ident', r))
+            except Raised as e:
+                outs.append(f'raises {e.text}')
+            except (TypeError, KeyError, ValueError, AttributeError) as e:
+                outs.append(f'raises {type(e).__name__}: {e}')
+        n += 1
+        ok = outs == seq
+        rep.instance(R5, ok=ok, nontrivial=('ident sequence', abstract_cls.__name__))
+        if not ok:
+            rep.finding(R5, f'C14.R5/ident sequence/{abstract_cls.__name__}', m.loc(LEX, call), 'metacall.call',
+                        f'{abstract_cls.__name__}(ident) for the idents {seq} in a row (one cache) gives {outs}: an item rebuilt from its ident is that item, '
+                        f'whatever was rebuilt before')
     # specs that are merely *equal* to a cached spec (1.0 == 1, same hash): the constructor refuses a non-int coordinate
     # (CoordsItem.__new__ folded below), so the outcome must be that refusal whether or not the int spec is cached
     cnew = m.func(LEX, 'CoordsItem.__new__')
